@@ -20,6 +20,20 @@ func main() {
 		cmdUnits(os.Args[2:])
 	case "check":
 		cmdCheck(os.Args[2:])
+	case "replay":
+		// replay <file>: show the stored violation record (obligation, solver verdict, model or
+		// solver output).  Re-running the obligation is `check --property <id>`; replays on the
+		// compiled code are the hand-written tests in /verif/replay_tests (DESIGN 10.1).
+		if len(os.Args) < 3 {
+			fmt.Fprintln(os.Stderr, "usage: govc replay <file>")
+			os.Exit(2)
+		}
+		data, err := os.ReadFile(os.Args[2])
+		if err != nil {
+			fmt.Fprintln(os.Stderr, err)
+			os.Exit(2)
+		}
+		os.Stdout.Write(data)
 	default:
 		fmt.Fprintln(os.Stderr, "unknown command")
 		os.Exit(2)
